@@ -93,3 +93,20 @@ def callback_consistency(cx, chk, cfg, rule, only=None, why="if it unwinds, the 
     if not bad:
         chk.ob(rule, cfg + ":callback-sites", "chain = index at %d callback site visits" % n)
     return n
+
+
+def dup_source_drops(chk, cfg, F, f, p, rule):
+    """a value duplicated with ptr::read / assume_init_read must not be dropped at its source afterwards (unless the source was
+    overwritten with ptr::write first): reports into `rule`. Payload fields of nodes are the typestate walker's business."""
+    from .absint import fmt_loc
+    reads = {}
+    for i, e in enumerate(p.events):
+        if e["ev"] == "ptr_read" and e.get("loc") is not None and not (e["loc"][0] == "H" and e["loc"][2] and e["loc"][2][-1] in ("key", "val", "0")):
+            reads[e["loc"]] = i
+        elif e["ev"] == "store" and e.get("via") == "ptr::write" and e.get("loc") in reads:
+            del reads[e["loc"]]
+        elif e["ev"] in ("drop", "drop_in_place") and e.get("loc") in reads and not e.get("moved"):
+            g = F.fns.get(e.get("fn")) or f
+            chk.violation(rule, "%s|%s" % (g["q"], fmt_loc(e["loc"])[:60]), "%s drops %s after its bits were copied out with ptr::read (line %s): the value now lives in two places - it is released twice, and the copy that stays behind dangles" % (
+                g["q"], fmt_loc(e["loc"]), p.events[reads[e["loc"]]].get("ln")), g["span"]["file"], e.get("ln"), g["q"], ["root " + f["q"]], cfg)
+            del reads[e["loc"]]
